@@ -279,6 +279,9 @@ class _FunctionAnalysis:
             rhs = self.eval(st.value, env)
             if isinstance(st.target, ast.Name):
                 setop = isinstance(st.op, (ast.BitOr, ast.BitAnd, ast.BitXor))
+                if isinstance(st.op, (ast.BitOr, ast.Add)):
+                    # x |= y / x += y on a local set or list adds the ELEMENTS of y (the keys, if y is a dict)
+                    self._extend_local_container(st.target, set(self.elements(rhs)), env)
                 for v in env.get(st.target.id, ()):  # in-place operators mutate sets/lists/dicts
                     # `x -= y` / `x += y` on a parameter of unknown type is arithmetic unless x is
                     # known to be a stored container
@@ -338,7 +341,7 @@ class _FunctionAnalysis:
             elems = self.elements(itv)
             base = dict(env)
             for _ in range(2):
-                self.assign(st.target, elems, env, st, destructure=True)
+                self.bind_loop_target(st.target, st.iter, elems, env, st)
                 body_env = dict(env)
                 self.exec_block(st.body, body_env)
                 merged = self.join(env, body_env)
@@ -424,6 +427,26 @@ class _FunctionAnalysis:
             return False
         return False
 
+    def bind_loop_target(self, target, iter_node, elems, env, st):
+        """Loop / comprehension target. `for k, v in X.items()` and `for i, v in enumerate(X)` bind the first name to a
+        key / counter (never an alias of stored data) and the second to the values; `zip(A, B, ...)` binds positionally.
+        Anything else: every component may be any element."""
+        if isinstance(target, (ast.Tuple, ast.List)) and not any(isinstance(e, ast.Starred) for e in target.elts) and isinstance(iter_node, ast.Call):
+            f = iter_node.func
+            if len(target.elts) == 2 and isinstance(f, ast.Attribute) and f.attr == "items" and not iter_node.args:
+                self.assign(target.elts[0], frozenset(), env, st)
+                self.assign(target.elts[1], elems, env, st)
+                return
+            if len(target.elts) == 2 and isinstance(f, ast.Name) and f.id == "enumerate" and iter_node.args:
+                self.assign(target.elts[0], frozenset(), env, st)
+                self.assign(target.elts[1], self.elements(self.eval(iter_node.args[0], env)), env, st)
+                return
+            if isinstance(f, ast.Name) and f.id == "zip" and len(iter_node.args) == len(target.elts) and not iter_node.keywords and not any(isinstance(a, ast.Starred) for a in iter_node.args):
+                for t, a in zip(target.elts, iter_node.args):
+                    self.assign(t, self.elements(self.eval(a, env)), env, st)
+                return
+        self.assign(target, elems, env, st, destructure=True)
+
     # ------------------------------------------------------------------ assignment
     def assign(self, target, val, env, st, destructure=False):
         if isinstance(target, ast.Name):
@@ -450,6 +473,12 @@ class _FunctionAnalysis:
         elif isinstance(target, ast.Subscript):
             bases = self.eval(target.value, env)
             self.eval(target.slice, env)
+            if any(b[0] == "cont" for b in bases):
+                ps = self._pseudo(target)
+                if ps is not None:
+                    env[ps] = frozenset(v for v in val if self._is_aliasing(v) or v[0] in ("cont", "view", "stat")) or frozenset([("cont", frozenset())])
+                else:
+                    self._extend_local_container(target.value, val, env)
             for b in bases:
                 self.write_value(b, st, keylevel=(b[0] in ("tab", "obj", "net")))
                 if b[0] in ("tab", "in", "net", "obj", "elem"):
@@ -462,6 +491,49 @@ class _FunctionAnalysis:
                 self._attr_store(b, target.attr, val, st)
         elif isinstance(target, ast.Starred):
             self.assign(target.value, val, env, st)
+
+    def _root_name(self, e):
+        """Name at the root of a chain of subscripts / attributes / accessor calls (d["k"].setdefault(..) -> d)."""
+        while True:
+            if isinstance(e, ast.Name):
+                return e.id
+            if isinstance(e, (ast.Subscript, ast.Attribute, ast.Starred)):
+                e = e.value
+            elif isinstance(e, ast.Call) and isinstance(e.func, ast.Attribute):
+                e = e.func.value
+            else:
+                return None
+
+    def _extend_local_container(self, recv_expr, vals, env):
+        """A local (fresh) container reachable from a name receives `vals`: from now on its elements may alias them.
+        Nested containers are flattened into the root (over-approximation)."""
+        name = self._root_name(recv_expr)
+        if name is None or name not in env:
+            return
+        ps = self._pseudo(recv_expr)
+        if ps is not None and any(x[0] == "cont" for x in env.get(name, ())):
+            if ps not in env:
+                env[ps] = frozenset([("cont", frozenset())])
+            name = ps
+        extra = set()
+        for v in vals:
+            if self._is_aliasing(v) or v[0] in ("cont", "view", "stat"):
+                extra.add(v)
+                if v[0] == "cont":
+                    extra |= {e for e in v[1] if self._is_aliasing(e) or e[0] in ("cont", "view", "stat")}
+                else:
+                    extra.add(("cont", frozenset([v])))
+        if not extra:
+            return
+        new, changed = set(), False
+        for v in env[name]:
+            if v[0] == "cont":
+                new.add(("cont", frozenset(v[1] | extra)))
+                changed = True
+            else:
+                new.add(v)
+        if changed:
+            env[name] = frozenset(new)
 
     def _is_aliasing(self, v):
         return v[0] in ("tab", "in", "obj", "elem", "net", "uid") or (v[0] == "cont" and any(self._is_aliasing(e) for e in v[1]))
@@ -545,7 +617,25 @@ class _FunctionAnalysis:
         return m(node, env)
 
     def ev_Name(self, node, env):
-        return env.get(node.id, frozenset())
+        v = env.get(node.id, frozenset())
+        # a local record with constant keys (data["nodes"], data["metadata"], ...): used as a whole it holds all of them
+        pref = node.id + "["
+        extra = set()
+        for k, pv in env.items():
+            if k.startswith(pref):
+                for x in pv:
+                    if self._is_aliasing(x) or x[0] in ("cont", "view", "stat"):
+                        extra.add(x)
+        if extra and any(x[0] == "cont" for x in v):
+            v = frozenset(("cont", frozenset(x[1] | extra)) if x[0] == "cont" else x for x in v)
+        return v
+
+    @staticmethod
+    def _pseudo(expr):
+        """data["key"] with a constant key on a plain name -> the pseudo-variable that holds that slot."""
+        if isinstance(expr, ast.Subscript) and isinstance(expr.value, ast.Name) and isinstance(expr.slice, ast.Constant) and isinstance(expr.slice.value, (str, int)):
+            return f"{expr.value.id}[{expr.slice.value!r}]"
+        return None
 
     def ev_Constant(self, node, env):
         return frozenset()
@@ -637,6 +727,9 @@ class _FunctionAnalysis:
         return res
 
     def ev_Subscript(self, node, env):
+        ps = self._pseudo(node)
+        if ps is not None and ps in env and any(x[0] == "cont" for x in env.get(node.value.id, ())):
+            return env[ps]
         base = self.eval(node.value, env)
         self.eval(node.slice, env)
         out = set()
@@ -689,7 +782,7 @@ class _FunctionAnalysis:
         e = dict(env)
         for g in node.generators:
             it = self.eval(g.iter, e)
-            self.assign(g.target, self.elements(it), e, node, destructure=True)
+            self.bind_loop_target(g.target, g.iter, self.elements(it), e, node)
             for c in g.ifs:
                 self.eval(c, e)
         elems = set()
@@ -796,6 +889,24 @@ class _FunctionAnalysis:
         elif isinstance(f, ast.Attribute):
             r, raises = self.call_attr(f, node, argvals, kwvals, env)
             out |= r
+            if f.attr in ("add", "append", "extend", "update", "insert", "setdefault", "appendleft", "__setitem__"):
+                vals = set()
+                for a in argvals:
+                    av = frozenset(a[1] if isinstance(a, tuple) and a and a[0] == "*" else a)
+                    if f.attr == "extend":
+                        vals |= set(self.elements(av))
+                    elif f.attr == "update":
+                        # dict.update shares the argument's values, set.update its elements; the receiver's type is
+                        # not tracked, so both
+                        vals |= set(self.elements(av))
+                        for c in self._shallow_copy(av):
+                            vals |= set(c[1]) if c[0] == "cont" else {c}
+                    else:
+                        vals |= set(av)
+                for v in kwvals.values():
+                    vals |= set(v)
+                if vals:
+                    self._extend_local_container(f.value, vals, env)
         else:
             fv = self.eval(f, env)
             out |= self._call_values(fv, node, argvals, kwvals, env)
